@@ -196,6 +196,9 @@ def prop(case, ctx):
             f = mod['funcs'][fidx]
             if partial_struct_arg(mod, f, argvals) and ctx.skip_known('struct-arg-partial-init'):
                 continue
+            if not f.get('va') and callgen.libffi_last_gpr_mixed_struct(mod, f['args']) and \
+                    ctx.skip_known('libffi-mixed-struct-in-last-gpr'):
+                continue
             proto = callgen.func_proto(fidx, f)
             res = [run_call(p, mod, call) for p in paths]
             kinds = set(_kind(t) for t in f['args'])
